@@ -49,9 +49,12 @@ pub fn run(args: &Args) {
             let mut res = Results::create(args.out.as_deref().unwrap_or(""));
             rt.block_on(async {
                 let sim = Sim::start().await;
-                for v in &vectors {
+                for (vi, v) in vectors.iter().enumerate() {
                     sim.clear();
                     sim.set_handler(None);
+                    // transport (S3.tla, FrameInvariance): two thirds of the responses arrive in frames of 1 or 2 bytes, so every
+                    // multi-byte character of a key straddles a frame boundary
+                    sim.set_frame(vi % 3);
                     let bucket_name = v["bucket_name"].as_str().unwrap_or("");
                     for o in v["bucket"].as_array().cloned().unwrap_or_default() {
                         sim.put(bucket_name, &s_of(&o["key"]), Obj { data: vec![0; o["size"].as_u64().unwrap_or(0) as usize], last_modified: at(o["lm"][0].as_i64().unwrap_or(0), o["lm"][1].as_i64().unwrap_or(0)), lm_text: None, size_text: None });
@@ -116,11 +119,13 @@ pub fn run(args: &Args) {
                     }
                     if garbled { sim.set_handler(Some(Box::new(|req: &Req, _s: &mut SimState| if req.is_list() { Some(Resp::xml(200, "<ListBucketResult><Contents><Key>KDMX/5/a</Key><Size>1</Si".into())) } else { None }))); }
                     let max = if size_bad { 1000 } else { *rng.pick(&[1usize, 2, 100, 1000]) };
+                    let frame = if n <= 160 && k % 2 == 1 { 1 + rng.below(7) as usize } else if k % 4 == 0 { 1 + rng.below(1400) as usize } else { 0 };
+                    sim.set_frame(frame);
                     res.case(fnv(format!("{:?}{}{}", keys, vol, max).as_bytes()), n > 0);
                     let got = match guarded(|| ()) { _ => if realtime { list_rt(site, vol, max).await } else { list_ar(site, &date).await } };
                     let (path, prefix, rmax) = last_list_req(&sim);
                     tr.ev(json!({"op": "list", "api": if realtime { "realtime" } else { "archive" }, "site": cps(site), "vol": vol, "y": y, "m": m, "d": d, "max": max, "keys": keys, "lms": lms,
-                                 "ids": got.ids, "idlms": got.lms, "err": got.err, "panic": got.panic, "size_bad": size_bad && n > 0, "garbled": garbled, "req_path": path, "req_prefix": prefix, "req_max": rmax}));
+                                 "ids": got.ids, "idlms": got.lms, "err": got.err, "panic": got.panic, "size_bad": size_bad && n > 0, "garbled": garbled, "frame": frame, "req_path": path, "req_prefix": prefix, "req_max": rmax}));
                 }
                 // ---- downloads
                 let gets = if args.thorough { 300 } else { 60 };
@@ -141,6 +146,13 @@ pub fn run(args: &Args) {
                     if status == 200 { sim.put(bucket, &key, Obj { data: body.clone(), last_modified: t, lm_text: None, size_text: None }); sim.set_handler(None); }
                     else if status == 404 { sim.set_handler(None); }
                     else { let st = status; sim.set_handler(Some(Box::new(move |req: &Req, _s: &mut SimState| if req.is_list() { None } else { Some(Resp::xml(st, "<Error><Code>AccessDenied</Code></Error>".into())) }))); }
+                    // transport: framed bodies (any split is the same response) and, for some 200 responses with a body, a
+                    // connection closed before Content-Length bytes arrived (a failed transfer: never an Ok result with other bytes)
+                    let frame = match k % 5 { 1 => 1 + rng.below(9) as usize, 3 => 1 + rng.below(1400) as usize, _ => 0 };
+                    let frame = if len > 20_000 && frame < 64 && frame > 0 { frame + 512 } else { frame };
+                    let cut = if status == 200 && len >= 1 && k % 6 == 5 { Some(rng.below(len as u64) as usize) } else { None };
+                    sim.set_frame(frame);
+                    sim.set_cut_body(cut);
                     res.case(fnv(format!("{key}{status}{len}").as_bytes()), status == 200);
                     let (out, data_equal, lm_equal, id_equal) = if realtime {
                         // half of the downloads use an identifier that carries a STALE listing time: the result must be stamped with the object's own Last-Modified
@@ -148,7 +160,7 @@ pub fn run(args: &Args) {
                         let id = ChunkIdentifier::new(site.to_string(), VolumeIndex::new(vol as usize), name.clone(), stale);
                         match realtime::download_chunk(site, &id).await {
                             Ok((rid, chunk)) => ("ok", chunk.data() == body.as_slice(), rid.date_time() == Some(t), rid.name() == name && rid.site() == site && rid.volume().as_number() as u64 == vol),
-                            Err(e) => (if status == 200 && len < 6 { "ok" } else { classify(&e) }, true, true, true),
+                            Err(e) => (if status == 200 && len < 6 && cut.is_none() { "ok" } else { classify(&e) }, true, true, true),
                         }
                     } else {
                         match archive::download_file(archive::Identifier::new(name.clone())).await {
@@ -158,7 +170,7 @@ pub fn run(args: &Args) {
                     };
                     let path = sim.log().iter().rev().find(|r| !r.is_list()).map(|r| cps(&r.path)).unwrap_or_default();
                     tr.ev(json!({"op": "get", "api": if realtime { "realtime" } else { "archive" }, "key": cps(&key), "status": status, "out": out, "data_equal": data_equal, "lm_equal": lm_equal, "id_equal": id_equal,
-                                 "panic": false, "req_path": path, "want_path": cps(&format!("/{}/{}", bucket, key)), "len": len}));
+                                 "panic": false, "req_path": path, "want_path": cps(&format!("/{}/{}", bucket, key)), "len": len, "frame": frame, "cut": cut.map(|c| c as i64).unwrap_or(-1)}));
                 }
             });
             res.sample(json!({"listings": "0..1001 objects, colliding prefixes (5 vs 57), XML-special / non-ASCII / percent / plus keys, sizes to 2^64-1, timestamps with and without fraction, unparsable Size, garbled body", "downloads": "200/404/403/500/503, 0 B..4 MiB"}));
